@@ -264,7 +264,7 @@ func opD3x(level, vec string, nilRecv bool, withFlags bool) string {
 			}
 			out += " vq=" + viewsSame(level, d, d2)
 			if withFlags && r != nil && err == nil {
-				out += flags3(level, d)
+				out += flags3(level, d, vec)
 			}
 		}
 		return out
@@ -294,7 +294,7 @@ func opD3x(level, vec string, nilRecv bool, withFlags bool) string {
 			}
 			out += " vq=" + viewsSame(level, d, d2)
 			if withFlags && r != nil && err == nil {
-				out += flags3(level, d)
+				out += flags3(level, d, vec)
 			}
 		}
 		return out
@@ -324,7 +324,7 @@ func opD3x(level, vec string, nilRecv bool, withFlags bool) string {
 			}
 			out += " vq=" + viewsSame(level, d, d2)
 			if withFlags && r != nil && err == nil {
-				out += flags3(level, d)
+				out += flags3(level, d, vec)
 			}
 		}
 		return out
@@ -362,7 +362,7 @@ func opD2x(level, vec string, nilRecv bool, withFlags bool) string {
 			}
 			out += " vq=" + viewsSame(level, d, d2)
 			if withFlags && r != nil && err == nil {
-				out += flags2(level, d)
+				out += flags2(level, d, vec)
 			}
 		}
 		return out
@@ -392,7 +392,7 @@ func opD2x(level, vec string, nilRecv bool, withFlags bool) string {
 			}
 			out += " vq=" + viewsSame(level, d, d2)
 			if withFlags && r != nil && err == nil {
-				out += flags2(level, d)
+				out += flags2(level, d, vec)
 			}
 		}
 		return out
@@ -422,7 +422,7 @@ func opD2x(level, vec string, nilRecv bool, withFlags bool) string {
 			}
 			out += " vq=" + viewsSame(level, d, d2)
 			if withFlags && r != nil && err == nil {
-				out += flags2(level, d)
+				out += flags2(level, d, vec)
 			}
 		}
 		return out
@@ -504,7 +504,7 @@ func lvlIdx(level string) int {
 // flagsN: rt = re-decoding the object's own encoding at the same level gives an object with the
 // same observable state; pv = for each lower level, decoding the view's encoding with a fresh
 // lower-level decoder gives the view's score, severity and encoding.
-func flagsGeneric(level, d string, dec func(level, vec string, nilRecv bool) string) string {
+func flagsGeneric(level, d, vec string, dec func(level, vec string, nilRecv bool) string, part func(l int, vec string) string) string {
 	m := kvOf(d)
 	L := lvlIdx(level)
 	encL := strings.SplitN(nth(m["enc"], L), "|", 2)[0]
@@ -525,14 +525,61 @@ func flagsGeneric(level, d string, dec func(level, vec string, nilRecv bool) str
 			pv += "0"
 		}
 	}
-	if pv == "" {
-		pv = "-"
+	// pw: the same comparison against a decoder of the lower level applied to the *input's* own
+	// tokens of that level (built from the input text, not from anything the library returned)
+	pw := ""
+	for l := 0; l < L; l++ {
+		low := kvOf(dec(lvls[l], part(l, vec), false))
+		ok := low["r"] == "1" && nth(low["s"], l) == nth(m["s"], l) && nth(low["sv"], l) == nth(m["sv"], l) &&
+			nth(low["enc"], l) == nth(m["enc"], l)
+		if ok {
+			pw += "1"
+		} else {
+			pw += "0"
+		}
 	}
-	return " rt=" + rt + " pv=" + pv
+	if pv == "" {
+		pv, pw = "-", "-"
+	}
+	return " rt=" + rt + " pv=" + pv + " pw=" + pw
 }
 
-func flags3(level, d string) string { return flagsGeneric(level, d, opD3plain) }
-func flags2(level, d string) string { return flagsGeneric(level, d, opD2plain) }
+var nLevel3 = []int{8, 11, 22}
+var nLevel2 = []int{6, 9, 14}
+
+// part3: the prefix and those tokens of the input whose name is a metric of a level <= l
+func part3(l int, vec string) string {
+	toks := strings.Split(vec, "/")
+	out := []string{toks[0]}
+	for _, t := range toks[1:] {
+		name := strings.SplitN(t, ":", 2)[0]
+		for _, n := range names3[:nLevel3[l]] {
+			if n == name {
+				out = append(out, t)
+				break
+			}
+		}
+	}
+	return strings.Join(out, "/")
+}
+
+// part2: the tokens of the input whose name is a metric of a level <= l
+func part2(l int, vec string) string {
+	out := []string{}
+	for _, t := range strings.Split(vec, "/") {
+		name := strings.SplitN(t, ":", 2)[0]
+		for _, n := range names2[:nLevel2[l]] {
+			if n == name {
+				out = append(out, t)
+				break
+			}
+		}
+	}
+	return strings.Join(out, "/")
+}
+
+func flags3(level, d, vec string) string { return flagsGeneric(level, d, vec, opD3plain, part3) }
+func flags2(level, d, vec string) string { return flagsGeneric(level, d, vec, opD2plain, part2) }
 
 // decode + dump without the rt/pv flags (used by the flags themselves)
 func opD3plain(level, vec string, nilRecv bool) string { return opD3x(level, vec, nilRecv, false) }
